@@ -482,8 +482,14 @@ D2  == <<List(<<List(<<Num("NpFloat32", 3, 2)>>), SetV({Num("PyFloat", 3, 2)})>>
          List(<<Arr("float32", <<1, 2>>, DataFloat(2)), List(<<Arr("int64", <<0>>, <<>>)>>)>>),
          List(<<SetV({Str("a"), Num("NpInt16", -3, 1)}), Num("PyInt", 0, 1)>>)>>
 
+\* a few longer lists and sets in every tier (the product pools of the quick tier stop at length 2)
+LongPool == <<List(<<Num("PyInt", 1, 1), Num("PyInt", 2, 1), Num("PyInt", 3, 1)>>),
+              List(<<Num("PyFloat", 3, 2), Num("PyInt", 2, 1), Num("NpFloat64", -1, 4), Num("NpInt32", 7, 1)>>),
+              List(<<Str("a"), Str("b"), Str("ab"), Str(""), Str("x")>>),
+              SetV({Num("PyInt", 1, 1), Num("PyInt", 2, 1), Num("PyFloat", 5, 2), Str("a")}),
+              List(<<List(<<Num("PyInt", 1, 1), Num("PyInt", 2, 1), Num("PyInt", 3, 1)>>), List(<<>>), List(<<Num("PyFloat", 1, 2)>>)>>)>>
 ValuePool ==
-  ScalarPool \o Lists(E1, IF Thorough THEN 3 ELSE 2) \o Sets(S1, IF Thorough THEN 3 ELSE 2) \o Arrays
+  ScalarPool \o LongPool \o Lists(E1, IF Thorough THEN 3 ELSE 2) \o Sets(S1, IF Thorough THEN 3 ELSE 2) \o Arrays
   \o Lists(D1, 2) \o (IF Thorough THEN Lists(D2, 2) ELSE <<>>)
 
 \* ---- SimulationParameters contents ----
